@@ -22,7 +22,10 @@ Definition chk_chord (c : pt) (sweep : bool) (lo hi : Q) (v w : pt) : bool :=
   let a := vsub v c in let b := vsub w c in let e := vsub w v in
   Qleb (nrm2 a) (sqr hi) && Qleb (nrm2 b) (sqr hi) &&
   (Qleb lo 0 || Qleb (sqr lo * nrm2 e) (sqr (vcross a e))) &&
-  sgn_ok sweep (vcross a b).
+  (sgn_ok sweep (vcross a b) ||
+   (* a chord that is a diameter (exactly half a turn) is acceptable when the inner radius is not positive: the tolerance
+      exceeds the radius *)
+   (Qeq_bool (vcross a b) 0 && Qleb lo 0 && Qltb (vdot a b) 0)).
 
 Fixpoint chk_chords (c : pt) (sweep : bool) (lo hi : Q) (vs : list pt) : bool :=
   match vs with
